@@ -736,10 +736,16 @@ func c044(c *an.Ctx, p *an.Prog) {
 			if an.FnPkgPath(cf) != mainPkg {
 				continue
 			}
-			if cf == sa {
+			onlyDisp := true
+			for _, r := range p.Roles(cf, g) {
+				if r != d {
+					onlyDisp = false
+				}
+			}
+			if onlyDisp {
 				okc = append(okc, fnKey(cf))
 			} else {
-				bad = append(bad, "lib.Dir.Authenticate is called from "+fnKey(cf)+" at "+p.InstrPos(e.Site))
+				bad = append(bad, "lib.Dir.Authenticate is called from "+fnKey(cf)+" at "+p.InstrPos(e.Site)+", which does not run exclusively in the dispatcher goroutine")
 			}
 		}
 		for _, name := range []string{"Authenticate"} {
@@ -754,7 +760,7 @@ func c044(c *an.Ctx, p *an.Prog) {
 			}
 		}
 	}
-	c.Check(len(bad) == 0 && len(okc) > 0, "C04.4", "funnel|Dir.Authenticate", p.Pos(da.Pos()), "called in the agent only from "+joinS(uniqS(okc)), strings.Join(uniqS(bad), "; "))
+	c.Check(len(bad) == 0 && len(okc) > 0, "C04.4", "funnel|Dir.Authenticate", p.Pos(da.Pos()), "called in the agent only from functions confined to the dispatcher goroutine: "+joinS(uniqS(okc))+" (the frontends' verdict is the one of s.authenticate, C04.1)", strings.Join(uniqS(bad), "; "))
 	bad, okc = nil, nil
 	for _, g := range []bool{false, true} {
 		for _, e := range p.Callers(sa, g) {
